@@ -5,9 +5,9 @@ patch=$1; shift
 cd /repo || exit 2
 if ! git diff --quiet; then echo "/repo dirty"; exit 2; fi
 if ! git apply --check "$patch" 2>/dev/null; then
-  if git apply --3way --check "$patch" 2>/dev/null; then :; else echo "PATCH DOES NOT APPLY: $patch"; exit 3; fi
+  echo "PATCH DOES NOT APPLY: $patch"; exit 3
 fi
-git apply "$patch" || git apply --3way "$patch" || exit 3
+git apply "$patch" || exit 3
 for p in "$@"; do
   /verif/bin/defracheck -repo /repo -property "$p" -verif /tmp/tryverif 2>&1 | grep -E "^defracheck|VIOLATION|^  [a-z].*\.go:" | cut -c1-420
 done
